@@ -102,34 +102,72 @@ func checkC19(c *Ctx, w *World) {
 	atoms := []atomDef{eqAtom("innerOK", innerErr, isNil), eqAtom("varintOK", isVal(ev), isNil), eqAtom("fixedOK", isVal(ef), isNil)}
 	cs := newCondSpace(m, recOf(atoms...), atomNames(atoms...)...)
 
-	// ---- C19.errors
-	for i, r := range returnsOf(m) {
-		if imp, _ := cs.Implies(cs.Reach(r), cs.Not(cs.Atom("innerOK"))); imp {
-			early := innerErr(r.Results[1])
-			for _, call := range []*ssa.Call{nb, ev, ef} {
-				if mayPrecede(call, r) {
-					early = false
-				}
-			}
-			c.check(early, "C19.errors", fmt.Sprintf("Marshal return#%d: wrapped error", i+1), p.ipos(r), "a marshalling error of the wrapped codec is returned as is, before anything else is done", "the wrapped codec's error is not passed through immediately")
-		}
-	}
-	imp, wit := cs.Implies(cs.Reach(nb), cs.Atom("innerOK"))
+	// ---- C19.errors / C19.frame: every way of leaving Marshal, as virtual returns (merged single-exit code is split per
+	// incoming edge), is exactly one of: wrapped error passed through untouched; prefix encoding error reported; success.
+	A := cs.Atom
+	allOK := cs.And(A("innerOK"), A("varintOK"), A("fixedOK"))
+	imp, wit := cs.Implies(cs.Reach(nb), A("innerOK"))
 	c.check(imp, "C19.errors", "framing only after a successful wrapped Marshal", p.ipos(nb), "the prefix is built only when the wrapped Marshal succeeded", "framing proceeds although the wrapped codec failed: "+wit)
 	// … and always then: no other condition (payload length, message type, …) lets an encoding leave without the field
-	all, wit2 := cs.Implies(cs.Atom("innerOK"), cs.Reach(nb))
+	all, wit2 := cs.Implies(A("innerOK"), cs.Reach(nb))
 	c.check(all, "C19.frame", "every successful encoding is framed", p.ipos(nb), "the prefix is built whenever the wrapped Marshal succeeded — for every payload, including the empty one", "some successfully marshalled payloads are returned without the checksum field: "+wit2)
-	for i, r := range returnsOf(m) {
-		reach := cs.Reach(r)
-		if !cs.Satisfiable(reach) {
-			continue
+	knownNil := func(v ssa.Value, cond Bits) bool {
+		if nilErr, _ := allOrigins(v, isConstNilOrigin); nilErr {
+			return true
 		}
-		e1, _ := cs.Implies(reach, cs.Not(cs.Atom("innerOK")))
-		e2, _ := cs.Implies(reach, cs.Atom("innerOK"))
-		if !e1 && !e2 {
-			c.fail("C19.frame", fmt.Sprintf("Marshal return#%d: classified", i+1), p.ipos(r), "this return is reachable both when the wrapped Marshal failed and when it succeeded: a successful encoding can leave through an error exit (without the checksum field)")
+		for _, pr := range []struct {
+			is   bool
+			atom string
+		}{{v == ssa.Value(ev), "varintOK"}, {v == ssa.Value(ef), "fixedOK"}, {innerErr(v), "innerOK"}} {
+			if pr.is {
+				if ok, _ := cs.Implies(cond, A(pr.atom)); ok {
+					return true
+				}
+			}
+		}
+		return false
+	}
+	succ := cs.False()
+	nSucc, nWrapped, nEnc := 0, 0, 0
+	for i, vr := range cs.VirtualReturns() {
+		construct := fmt.Sprintf("Marshal exit#%d", i+1)
+		wrappedFail, _ := cs.Implies(vr.Cond, cs.Not(A("innerOK")))
+		isSucc, _ := cs.Implies(vr.Cond, allOK)
+		encFail, _ := cs.Implies(vr.Cond, cs.And(A("innerOK"), cs.Or(cs.Not(A("varintOK")), cs.Not(A("fixedOK")))))
+		switch {
+		case wrappedFail:
+			nWrapped++
+			untouched := !cs.Satisfiable(and(vr.Cond, cs.Reach(nb)))
+			c.check(innerErr(vr.Vals[1]) && untouched, "C19.errors", construct+": wrapped error", p.ipos(vr.Ret), "a marshalling error of the wrapped codec is returned as is, and nothing is framed on that path", "the wrapped codec's error is not passed through untouched")
+		case isSucc:
+			nSucc++
+			succ = or(succ, vr.Cond)
+			app, isA := stripConv(vr.Vals[0]).(*ssa.Call)
+			good := isA && calleeOf(&app.Call).Builtin == "append"
+			if good {
+				by, isB := staticCallNamed(stripConv(oneOrigin(app.Call.Args[0])), "proto.(*Buffer).Bytes")
+				// both encode steps ran before the prefix bytes are taken, on this way out
+				ranEF, _ := cs.Implies(vr.Cond, and(cs.Reach(ev), cs.Reach(ef)))
+				good = isB && by.Call.Args[0] == ssa.Value(nb) && ranEF && mayPrecede(ef, by) && !mayPrecede(by, ef) && payload(app.Call.Args[1])
+			}
+			c.check(good && knownNil(vr.Vals[1], vr.Cond), "C19.frame", construct+": success", p.ipos(vr.Ret), "returns append(prefix bytes, payload...) — the 6-byte field followed by the unchanged wrapped encoding — with a nil error", "the success result is not prefix‖payload with a nil error")
+		case encFail:
+			nEnc++
+			e := vr.Vals[1]
+			ok := false
+			if e == ssa.Value(ev) {
+				ok, _ = cs.Implies(vr.Cond, cs.Not(A("varintOK")))
+			} else if e == ssa.Value(ef) {
+				ok, _ = cs.Implies(vr.Cond, cs.Not(A("fixedOK")))
+			}
+			c.check(ok, "C19.errors", construct+": encode error", p.ipos(vr.Ret), "an encoding error of the prefix is reported", "a prefix encoding error is swallowed (or replaced)")
+		default:
+			c.fail("C19.frame", construct+": classified", p.ipos(vr.Ret), "this exit is reachable both when a step failed and when every step succeeded: a successful encoding can leave without the checksum field, or a failure can look like a success")
 		}
 	}
+	full, w3 := cs.Implies(allOK, succ)
+	c.check(nSucc >= 1 && full, "C19.frame", "success is unconditional", p.pos(m.Pos()), "whenever all three steps succeeded the framed result is returned", "when all three steps succeeded the framed result is not always the one returned: "+w3)
+	c.check(nWrapped >= 1, "C19.errors", "wrapped error exit exists", p.pos(m.Pos()), "a failing wrapped Marshal has its own exit", "no exit passes the wrapped codec's error through")
 
 	// ---- C19.tag
 	emptyStart := false
@@ -141,7 +179,7 @@ func checkC19(c *Ctx, w *World) {
 	tag, isC := constInt(ev.Call.Args[1])
 	const wantTag = (2047 << 3) | 5
 	c.check(isC && tag == wantTag && tag >= 128 && tag < 16384, "C19.tag", "tag constant", p.ipos(ev), fmt.Sprintf("EncodeVarint(%d) = (2047<<3)|5: field 2047, wire type 5 (32-bit); 128 ≤ tag < 16384 ⇒ a 2-byte varint, prefix = 2 + 4 = 6 bytes", tag), fmt.Sprintf("tag constant is %d, expected (2047<<3)|5 = %d", tag, wantTag))
-	order := ev.Call.Args[0] == ssa.Value(nb) && ef.Call.Args[0] == ssa.Value(nb) && dominatesInstr(ev, ef) && !inLoop(ev) && !inLoop(ef) && len(bufCalls) == 2 && bufCalls[0] == "EncodeVarint"
+	order := ev.Call.Args[0] == ssa.Value(nb) && ef.Call.Args[0] == ssa.Value(nb) && (dominatesInstr(ev, ef) || (mayPrecede(ev, ef) && !mayPrecede(ef, ev))) && !inLoop(ev) && !inLoop(ef) && len(bufCalls) == 2 && bufCalls[0] == "EncodeVarint"
 	c.check(order && emptyStart, "C19.tag", "prefix = varint tag then fixed32", p.ipos(ef), "the buffer starts empty and receives exactly EncodeVarint then EncodeFixed32, once each, on the same buffer", "the prefix is not exactly one varint tag followed by one fixed32 on an initially empty buffer")
 
 	// ---- C19.crc
@@ -159,54 +197,34 @@ func checkC19(c *Ctx, w *World) {
 	}
 	c.check(okCrc, "C19.crc", "checksum value", p.ipos(ef), "fixed32 = crc32.Checksum(<wrapped encoding>, MakeTable(Castagnoli)): CRC32C of exactly the payload", "the checksum is not the CRC32C of the wrapped encoding")
 
-	// ---- C19.frame
-	nSucc := 0
-	for i, r := range returnsOf(m) {
-		if imp, _ := cs.Implies(cs.Reach(r), cs.And(cs.Atom("innerOK"), cs.Atom("varintOK"), cs.Atom("fixedOK"))); !imp || !cs.Satisfiable(cs.Reach(r)) {
-			continue
-		}
-		nSucc++
-		app, isA := r.Results[0].(*ssa.Call)
-		good := isA && calleeOf(&app.Call).Builtin == "append"
-		if good {
-			by, isB := staticCallNamed(app.Call.Args[0], "proto.(*Buffer).Bytes")
-			good = isB && by.Call.Args[0] == ssa.Value(nb) && dominatesInstr(ef, by) && payload(app.Call.Args[1])
-		}
-		// error result is nil on this path: it is one of the encode errors, known nil here
-		errOK := false
-		if nilErr, _ := allOrigins(r.Results[1], isConstNilOrigin); nilErr {
-			errOK = true
-		} else if r.Results[1] == ssa.Value(ef) || r.Results[1] == ssa.Value(ev) || innerErr(r.Results[1]) {
-			errOK = true // reach ⇒ that error == nil (checked by the implication above)
-		}
-		if full, w3 := cs.Implies(cs.And(cs.Atom("innerOK"), cs.Atom("varintOK"), cs.Atom("fixedOK")), cs.Reach(r)); !full {
-			c.fail("C19.frame", fmt.Sprintf("Marshal return#%d: success is unconditional", i+1), p.ipos(r), "when all three steps succeeded the framed result is not always the one returned: "+w3)
-		}
-		c.check(good && errOK, "C19.frame", fmt.Sprintf("Marshal return#%d: success", i+1), p.ipos(r), "returns append(prefix bytes, payload...) — the 6-byte field followed by the unchanged wrapped encoding — with a nil error", "the success result is not prefix‖payload with a nil error")
-	}
-	c.check(nSucc == 1, "C19.frame", "one success return", p.pos(m.Pos()), "exactly one success exit", fmt.Sprintf("%d success exits", nSucc))
-	// encode errors leave with an error
-	for i, r := range returnsOf(m) {
-		if imp, _ := cs.Implies(cs.Reach(r), cs.And(cs.Atom("innerOK"), cs.Or(cs.Not(cs.Atom("varintOK")), cs.Not(cs.Atom("fixedOK"))))); imp && cs.Satisfiable(cs.Reach(r)) {
-			ok := r.Results[1] == ssa.Value(ev) || r.Results[1] == ssa.Value(ef)
-			c.check(ok, "C19.errors", fmt.Sprintf("Marshal return#%d: encode error", i+1), p.ipos(r), "an encoding error of the prefix is reported", "a prefix encoding error is swallowed")
-		}
-	}
-
 	// ---- C19.unmarshal
 	okU := false
+	var ucall *ssa.Call
+	nU := 0
 	eachInstr(um, func(in ssa.Instruction) {
-		if call, ok := in.(*ssa.Call); ok && call.Call.IsInvoke() && call.Call.Method.Name() == "Unmarshal" && isLoadOf(call.Call.Value, "myCodec.protoCodec") {
-			if call.Call.Args[0] == ssa.Value(um.Params[1]) && call.Call.Args[1] == ssa.Value(um.Params[2]) {
-				okU = true
-				for _, r := range returnsOf(um) {
-					if r.Results[0] != ssa.Value(call) {
-						okU = false
-					}
-				}
+		if call, ok := in.(*ssa.Call); ok && call.Call.IsInvoke() && call.Call.Method.Name() == "Unmarshal" {
+			nU++
+			if isLoadOf(oneOrigin(call.Call.Value), "myCodec.protoCodec") && call.Call.Args[0] == ssa.Value(um.Params[1]) && call.Call.Args[1] == ssa.Value(um.Params[2]) && call.Block() == um.Blocks[0] {
+				ucall = call
 			}
 		}
 	})
+	if ucall != nil && nU == 1 {
+		ucs := newCondSpace(um, recOf(eqAtom("delegOK", isVal(ucall), isNil)), "delegOK")
+		okU = true
+		for _, vr := range ucs.VirtualReturns() {
+			v := vr.Vals[0]
+			if v == ssa.Value(ucall) {
+				continue
+			}
+			// a literal nil is the same result when the delegate returned nil on this path
+			isNilC, _ := allOrigins(v, isConstNilOrigin)
+			known, _ := ucs.Implies(vr.Cond, ucs.Atom("delegOK"))
+			if !(isNilC && known) {
+				okU = false
+			}
+		}
+	}
 	c.check(okU, "C19.unmarshal", "Unmarshal delegates", p.pos(um.Pos()), "both arguments go to the wrapped codec and its result is returned (a conforming parser skips the unknown field 2047)", "Unmarshal does not simply delegate to the wrapped codec")
 }
 
@@ -318,4 +336,13 @@ func writableUses(p *Prog, v ssa.Value, seen map[ssa.Value]bool, depth int) []st
 		}
 	}
 	return bad
+}
+
+// oneOrigin: the single value v originates from (through local cells / phis that agree), else v itself.
+func oneOrigin(v ssa.Value) ssa.Value {
+	os := origins(v)
+	if len(os) == 1 && os[0].Val != nil {
+		return os[0].Val
+	}
+	return v
 }
